@@ -1517,7 +1517,17 @@ class ServerSuite(SystemSuite):
                 return f"touch {k}: the selection (stage {want}) was not rung at the Look to that followed it"
             method_rows = [b for (r, b, _t) in rows if r >= 2]
             got = moved_bells(method_rows)
-            if len(method_rows) >= 3 and got != want:
+            # (which method is rung can only be seen if the method starts: up-down-in may have been switched off
+            # by a setting before this Look to, and nobody says Go in these sessions)
+            udi = case["udi"]
+            for t_e, e in case["events"]:
+                if e[0] == "setting" and Fraction(t_e) < look:
+                    for key, val in e[1]:
+                        if key == "use_up_down_in" and val in ["True", "true", True]:
+                            udi = True
+                        elif key == "use_up_down_in" and val in ["False", "false", False]:
+                            udi = False
+            if len(method_rows) >= 3 and got != want and udi:
                 return (f"touch {k}: the rows rung are on {got} bells, but the selection in force at Look to was stage "
                         f"{want} (selections {orc['selections']})")
             current = want
